@@ -366,3 +366,123 @@ def bind_pat(pat, init, env):
         from facts import _pat_binds
         for b in _pat_binds(pat):
             env.vals.pop(b['local'], None)
+
+
+# ------------------------------------------------------------ canonical strings -> Poly
+
+def parse_poly(s, defs=None, _depth=0):
+    """Normal form of a dtree canonical arithmetic string.  `defs` maps kept-let names to
+    their defining strings (the `name := expr` effects of the path), substituted on use, so
+    introducing or removing a helper `let` does not change the result.  Anything that is not
+    + - * / or a literal becomes an opaque atom keyed by its text."""
+    defs = defs or {}
+    s = s.strip()
+    if _depth > 30:
+        return Poly.atom(('sym', s))
+    # strip one layer of parentheses around the whole string
+    if s.startswith('(') and _match(s, 0) == len(s) - 1:
+        inner = s[1:-1]
+        cut = _top_op(inner)
+        if cut is not None:
+            i, op = cut
+            a = parse_poly(inner[:i], defs, _depth + 1)
+            b = parse_poly(inner[i + len(op):], defs, _depth + 1)
+            op = op.strip()
+            if op == '+':
+                return a + b
+            if op == '-':
+                return a - b
+            if op == '*':
+                return a * b
+            if op == '/':
+                return a * b.inv()
+        if _top_comma(inner):
+            return Poly.atom(('sym', s))
+        return parse_poly(inner, defs, _depth + 1)
+    if s.startswith('-') and len(s) > 1:
+        return -parse_poly(s[1:], defs, _depth + 1)
+    try:
+        t = s[:-1] if s.endswith('.') and s[:-1].isdigit() else s
+        return Poly.const(Fraction(t))
+    except (ValueError, ZeroDivisionError):
+        pass
+    # method suffixes with arithmetic meaning
+    import re as _re
+    m = _re.fullmatch(r'(.+)\.powi\((\d+)\)', s)
+    if m and _balanced_s(m.group(1)):
+        return parse_poly(m.group(1), defs, _depth + 1).pow(int(m.group(2)))
+    m = _re.fullmatch(r'(.+)\.pow\((\d+)\)', s)
+    if m and _balanced_s(m.group(1)):
+        return parse_poly(m.group(1), defs, _depth + 1).pow(int(m.group(2)))
+    m = _re.fullmatch(r'(.+)\.(sqrt|abs|ln|exp)\(\)', s)
+    if m and _balanced_s(m.group(1)):
+        return Poly.atom(('fn', m.group(2), (parse_poly(m.group(1), defs, _depth + 1).freeze(),)))
+    if s in defs:
+        return parse_poly(defs[s], defs, _depth + 1)
+    return Poly.atom(('sym', s))
+
+
+def _balanced_s(x):
+    d = 0
+    for ch in x:
+        if ch in '([{':
+            d += 1
+        elif ch in ')]}':
+            d -= 1
+            if d < 0:
+                return False
+    return d == 0
+
+
+def _match(s, i):
+    d = 0
+    for j in range(i, len(s)):
+        if s[j] in '([{':
+            d += 1
+        elif s[j] in ')]}':
+            d -= 1
+            if d == 0:
+                return j
+    return -1
+
+
+def _top_op(inner):
+    d = 0
+    for i, ch in enumerate(inner):
+        if ch in '([{':
+            d += 1
+        elif ch in ')]}':
+            d -= 1
+        elif ch == ' ' and d == 0:
+            for op in (' + ', ' - ', ' * ', ' / '):
+                if inner.startswith(op, i):
+                    return i, op
+    return None
+
+
+def _top_comma(inner):
+    d = 0
+    for ch in inner:
+        if ch in '([{':
+            d += 1
+        elif ch in ')]}':
+            d -= 1
+        elif ch == ',' and d == 0:
+            return True
+    return False
+
+
+def defs_of(effects):
+    """{name: expr} from the `name := expr` effects of a path; a name that is assigned again
+    later (a mutable accumulator, `:=` being only its initial value) is not a definition"""
+    import re as _re
+    out = {}
+    alltext = ' ; '.join(effects)
+    for e in effects:
+        if ' := ' in e:
+            a, b = e.split(' := ', 1)
+            a = a.strip()
+            if _re.search(r'(?<![\w\]])%s (\w+Assign|=) ' % _re.escape(a), alltext):
+                continue
+            out[a] = b
+    return out
